@@ -1,6 +1,9 @@
 package eng
 
-import "go/ast"
+import (
+	"go/ast"
+	"go/types"
+)
 
 // IsCondOperand reports whether n lies inside the branch condition that ends some live block.
 func (g *Graph) IsCondOperand(n ast.Node) bool {
@@ -15,3 +18,53 @@ func (g *Graph) IsCondOperand(n ast.Node) bool {
 	}
 	return false
 }
+
+// StoreElem matches `x.field[k] = v` (and op-assignments / ++ on an element) of the given field.
+func (p *Prog) StoreElem(fieldRef string) Matcher {
+	v := p.Field(fieldRef)
+	return Matcher{Desc: "store " + short(fieldRef) + "[…]", F: func(g *Graph, n ast.Node, _ Mode) bool {
+		var lhs []ast.Expr
+		switch s := n.(type) {
+		case *ast.AssignStmt:
+			lhs = s.Lhs
+		case *ast.IncDecStmt:
+			lhs = []ast.Expr{s.X}
+		}
+		for _, l := range lhs {
+			if ix, ok := ast.Unparen(l).(*ast.IndexExpr); ok && exprIsField(g.Info, ix.X, v) {
+				return true
+			}
+		}
+		return false
+	}}
+}
+
+// DeleteElem matches `delete(x.field, k)`.
+func (p *Prog) DeleteElem(fieldRef string) Matcher {
+	v := p.Field(fieldRef)
+	return Matcher{Desc: "delete(" + short(fieldRef) + ", …)", F: func(g *Graph, n ast.Node, _ Mode) bool {
+		call, ok := n.(*ast.CallExpr)
+		if !ok || len(call.Args) != 2 {
+			return false
+		}
+		id, ok := call.Fun.(*ast.Ident)
+		return ok && id.Name == "delete" && exprIsField(g.Info, call.Args[0], v)
+	}}
+}
+
+// paramIndex returns the position of v among the parameters of the declared function of g
+// (not of a closure), or -1.
+func (g *Graph) paramIndex(v *types.Var) int {
+	if g.Decl == nil || g.Body != g.Decl.Body {
+		return -1
+	}
+	params := g.Sig.Params()
+	for i := 0; i < params.Len(); i++ {
+		if params.At(i) == v {
+			return i
+		}
+	}
+	return -1
+}
+
+var litGraphCache = map[*ast.FuncLit]*Graph{}
